@@ -151,6 +151,10 @@ func GenMulti(c *Chooser, o GenOpts) *MultiWorld {
 		} else {
 			r.Config = repoConfigs[c.Int("world.config", len(repoConfigs))]
 		}
+		if o.Defective && c.Weighted("world.brokencfg", 1, 12) {
+			// a configuration that cannot be loaded: every run over this repository is fatal
+			r.Config = []string{"self-hosted-runner: 1\n", "paths:\n  '[':\n    ignore: []\n", "paths:\n  '**':\n    ignore: ['(']\n", "config-variables: {a: b\n"}[c.Int("world.brokencfgsel", 4)]
+		}
 		if r.Config != "" {
 			name := "actionlint.yaml"
 			if c.Weighted("world.ymlcfg", 1, 4) {
